@@ -57,7 +57,7 @@ CommitBeforeRejoin(r) == r.bad_shutdowns = <<>>
 \* the retry backoff (a request of the protocol that could not be routed) -- not after the backoff for unexpected errors
 LookupBackoff(r) ==
     (r.e.a = "Answer" /\ r.e.x \in {14, 15, 16}) =>
-        \A n \in Names : (r.e.k = n \o ":coord") => \A d \in Range(r.members[n].rejoin_delays) : d \in {100000, 1000000}
+        \A n \in Names : (r.e.k = n \o ":coord") => \A d \in Range(r.members[n].rejoin_new) : d \in {100000, 1000000}
 \* a started member always has something going on that leads back to membership
 NeverIdle(r) ==
     \A n \in Names :
